@@ -2,6 +2,7 @@
 //! Subcommands (one per conformance direction / subsystem); each reads ndjson emitted by TLC
 //! (behaviours) or writes ndjson traces, and prints a JSON summary on stdout.
 mod rawreplay;
+mod reads;
 mod util;
 mod vecreplay;
 
